@@ -1,7 +1,10 @@
 #!/usr/bin/env python3
 """Self-validation: apply each seeded change to /repo, run the checks expected to catch it, restore /repo.
 
-  tools/mutants.py [--baseline] [--all-checks] [--seed N] [--tier quick] [name-substring ...]
+  tools/mutants.py [--baseline] [--all-checks] [--seed N] [--tier quick] [--isolated] [name-substring ...]
+
+--isolated works on a scratch worktree of /repo's HEAD (under /var/tmp, removed afterwards) with a scratch space of its own
+(XCP_REPO / VERIF_SCRATCH_TAG), so /repo itself is never touched and other checks can run at the same time.
 
 Patches: /verif/mutants/*.patch (first line '# expect: C01,C05') and /verif/seeded/<id>/patch.diff (meta.json 'property').
 Results are appended to /verif/mutants/RESULTS.json (one record per (patch, check, seed)).
@@ -10,6 +13,8 @@ import glob, json, os, subprocess, sys, time
 
 V = "/verif"
 ALL = ["C%02d" % i for i in range(1, 21)]
+REPO = "/repo"
+ENV = ""
 
 
 def sh(cmd, **kw):
@@ -37,13 +42,29 @@ def main():
     seed = int(args[args.index("--seed") + 1]) if "--seed" in args else 1
     tier = args[args.index("--tier") + 1] if "--tier" in args else "quick"
     names = [a for i, a in enumerate(args) if not a.startswith("--") and (i == 0 or args[i - 1] not in ("--seed", "--tier"))]
-    if sh("git -C /repo status --porcelain --untracked-files=no").stdout.strip():
-        sys.exit("/repo working tree is not clean")
+    global REPO, ENV
+    if "--isolated" in args:
+        REPO = "/var/tmp/xcp-verif-mut%d/repo" % os.getpid()
+        os.makedirs(os.path.dirname(REPO), exist_ok=True)
+        if sh("git -C /repo worktree add --detach %s HEAD -q" % REPO).returncode:
+            sys.exit("cannot create scratch worktree")
+        ENV = "XCP_REPO=%s VERIF_SCRATCH_TAG=-mut%d VERIF_OUT_DIR=%s/out " % (REPO, os.getpid(), os.path.dirname(REPO))
+    try:
+        run_all(args, baseline, allchecks, seed, tier, names)
+    finally:
+        if "--isolated" in args:
+            sh("git -C /repo worktree remove --force %s; git -C /repo worktree prune" % REPO)
+            sh("rm -rf %s /var/tmp/xcp-verif-mut%d /dev/shm/xcp-verif-mut%d" % (os.path.dirname(REPO), os.getpid(), os.getpid()))
+
+
+def run_all(args, baseline, allchecks, seed, tier, names):
+    if sh("git -C %s status --porcelain --untracked-files=no" % REPO).stdout.strip():
+        sys.exit("repo working tree is not clean")
     results = []
     for name, path, exp in patches():
         if names and not any(n in name for n in names):
             continue
-        r = sh("git -C /repo apply %s" % path)
+        r = sh("git -C %s apply %s" % (REPO, path))
         if r.returncode:
             print("%-40s DOES NOT APPLY: %s" % (name, r.stderr.strip()[:200]))
             results.append({"patch": name, "applies": False})
@@ -57,7 +78,7 @@ def main():
                     print("%-40s baseline tests FAIL with this change: %s" % (name, b.stdout[-300:]))
             for c in (ALL if allchecks else exp):
                 t0 = time.time()
-                r = sh("cd %s && VERIF_SEED=%d ./check %s --tier %s" % (V, seed, c, tier))
+                r = sh("cd %s && %sVERIF_SEED=%d ./check %s --tier %s" % (V, ENV, seed, c, tier))
                 sigs = [l.strip()[5:] for l in r.stdout.splitlines() if l.strip().startswith("sig: ")]
                 rec["checks"][c] = {"exit": r.returncode, "sigs": sigs[:6], "wall": round(time.time() - t0, 1)}
             caught = [c for c, v in rec["checks"].items() if v["exit"] == 1]
@@ -68,8 +89,8 @@ def main():
                 print("      %s: %s" % (c, "; ".join(rec["checks"][c]["sigs"][:3])))
             results.append(rec)
         finally:
-            sh("git -C /repo checkout -- .")
-            sh("git -C /repo clean -fdq -- libxcp libfs src tests")
+            sh("git -C %s checkout -- ." % REPO)
+            sh("git -C %s clean -fdq -- libxcp libfs src tests" % REPO)
     hist = []
     if os.path.exists(V + "/mutants/RESULTS.json"):
         hist = json.load(open(V + "/mutants/RESULTS.json"))
